@@ -89,6 +89,14 @@ class Gen:
                     f["refs"].append(r.choice(vis))
             if fail_bias and r.chance(0.12):
                 f["refs"].insert(r.below(len(f["refs"]) + 1), r.choice(RES_FAIL))
+        # a scope provider call that starts a complete further load (keyed by the referenced name,
+        # so only for names referenced exactly once in this load)
+        allrefs = [x for f in names for x in f["refs"]]
+        for x in sorted(set(allrefs)):
+            if x not in RES_FAIL and allrefs.count(x) == 1 and x not in libitems and r.chance(0.15):
+                a = self.action(depth, 0)
+                if a is not None:
+                    self.behav["prov:" + x] = a
         # how the main model reaches textX: from its file, from a string with file_name=, or from a
         # bare string (no file name: registered under a generated key). A bare string cannot import.
         hows = [("file", 5), ("str_named", 2)]
@@ -222,7 +230,21 @@ class Compiler:
         self.cur_how = saved_how
         if not ok:
             return False
-        if any(x in RES_FAIL for f in files for x in f["refs"]):
+        # the resolution loop: models in repository order, references in text order; an unknown
+        # object or a provider exception raises at once, a postponed reference after the others
+        postponed = False
+        for f in files:
+            for x in f["refs"]:
+                if x in ("unknownx", "provboom"):
+                    self.op("Fail")
+                    return False
+                if x == "postp":
+                    postponed = True
+                    continue
+                if not self.action(b.get("prov:" + x)):
+                    self.op("Fail")
+                    return False
+        if postponed:
             self.op("Fail")
             return False
         self.op("ResolveOk")
@@ -309,6 +331,20 @@ Definition show_ek (k : ekind) : string := match k with
   | KFail c => "F " ++ show_nat c
   | KFinish c => "E " ++ show_nat c end.
 Definition show_ev (e : event) : string := show_ek (e_kind e) ++ " " ++ show_nat (e_count e) ++ " " ++ show_nat (e_store e).
+Definition show_t (t : target) : string := match t with ToStorage => "S" | ToUser _ => "U" | ToBase => "B" end.
+Definition probe (k : cls) (x : nat) : string :=
+  show_t (acting_set k x) ++ show_t (acting_get k x true) ++ show_t (acting_get k x false) ++
+  show_t (acting_del k x true) ++ show_t (acting_del k x false).
+Definition probed (e : event) : bool := match e_kind e with KInit _ _ | KProc _ => true | _ => false end.
+(* oldest first; objs = the objects allocated before the event *)
+Fixpoint show_log (objs : list nat) (l : list event) : list string :=
+  match l with
+  | [] => []
+  | e :: l' =>
+      let objs' := match e_kind e with KAlloc _ _ o _ => (objs ++ [o])%%list | _ => objs end in
+      (show_ev e ++ (if probed e then " " ++ sjoin "," (map (fun o => show_nat o ++ ":" ++ probe (e_cls e) o) objs') else ""))
+      :: show_log objs' l'
+  end.
 Definition d_of (a b c d : slot) : list N -> slot := fun x =>
   if str_eqb x n_setattr then a else if str_eqb x n_delattr then b else if str_eqb x n_getattribute then c
   else if str_eqb x n_getattr then d else Absent.
@@ -317,7 +353,7 @@ Definition show_state (s : state) : string :=
   sjoin "," (map (fun a => show_slot (k_dict (s_cls s) a)) names4) ++ "|" ++
   sjoin "," (map (fun a => show_opt show_slot (k_saved (s_cls s) a)) names4) ++ "|" ++
   show_nat (List.length (s_ctxs s)) ++ "|" ++ sjoin "," (map show_nat (s_repo s)) ++ "|" ++
-  sjoin ";" (map show_ev (rev (s_log s))).
+  sjoin ";" (show_log [] (rev (s_log s))).
 Definition go (d0 : list N -> slot) (ops : list op) : string := show_state (run replace_names restore_names (init d0) ops).
 """ % tuple(core.coq_str(x) for x in ("setattr", "delattr", "getattribute", "getattr"))
 
@@ -341,10 +377,20 @@ def parse_model(text, no_classes=False):
     parents = {}
     entries = [x.split(" ") for x in log.split(";") if x]
     cmap = {c: i for i, c in enumerate(sorted({int(w[1]) for w in entries}))}
+    probes = {}
     for w in entries:
         k = w[0]
         c = cmap[int(w[1])]
-        cnt, st = (0, 0) if no_classes else (int(w[-2]), int(w[-1]))
+        base = {"A": 5, "I": 3, "S": 2, "R": 2, "P": 2, "F": 2, "E": 2}[k]
+        cnt, st = (0, 0) if no_classes else (int(w[base]), int(w[base + 1]))
+        if k in ("I", "P"):
+            pr = {}
+            for item in (w[base + 2] if len(w) > base + 2 else "").split(","):
+                if item:
+                    o, letters = item.split(":")
+                    # set: exact; read / delete: the user's own method or not
+                    pr[str(omap[o])] = letters[0] + "".join("U" if x == "U" else "N" for x in letters[1:])
+            probes[str(len(events))] = pr
         if k == "A":
             m = mmap.setdefault(w[2], len(mmap))
             o = omap.setdefault(w[3], len(omap))
@@ -358,7 +404,7 @@ def parse_model(text, no_classes=False):
     if no_classes:
         count = store = "0"
     return {"count": int(count), "store": int(store), "dict": dct, "saved": saved, "nctx": int(nctx),
-            "repo": [mmap.get(x, x) for x in repo.split(",") if x], "events": events, "parents": parents}
+            "repo": [mmap.get(x, x) for x in repo.split(",") if x], "events": events, "parents": parents, "probes": probes}
 
 
 def impl_events(obs):
@@ -412,6 +458,20 @@ def oracle_c14(sc, obs, tops_ok, loads_info):
                 bad.append(("__init__ of Ref object %s received an unresolved reference" % n, ["init_resolved"]))
             if rec.get("subs_ok") is False:
                 bad.append(("__init__ of Item object %s received foreign children" % n, ["init_args"]))
+    # during loading an initialised object is handled by what its class defined itself
+    want = {"own": "UUUUU", "frozen": "UNNNN"}.get(sc["shape"], "BNNNN")
+    inited = set()
+    for idx, e in enumerate(evs):
+        if e[0] == "I":
+            inited.add(e[2])
+        pr = obs.get("probes", {}).get(str(idx))
+        if pr:
+            for o in sorted(inited, key=int):
+                if str(o) in pr and pr[str(o)] != want:
+                    bad.append(("during the load (event %d %r) attribute access on the initialised object %d is handled by %s, the class itself gives %s "
+                                "(set/read/read missing/delete/delete missing: U = the class's own method, S = textX storage, B/N = inherited)" % (idx, e[:3], o, pr[str(o)], want),
+                                ["own_accessors"]))
+                    break
     # __init__ before any object processor of the same load
     seen_proc = set()
     for e in evs:
@@ -473,6 +533,14 @@ def compare(sc, obs, model, tops_ok, loads_info):
                 return "event %d differs: implementation %r, model %r" % (i, a, b)
         return "event logs differ in length: implementation %d, model %d (next: %r)" % (
             len(ie), len(model["events"]), (ie + model["events"])[min(len(ie), len(model["events"]))])
+    # attribute access at every __init__ and object processor call, on every object allocated so far
+    if sc["classes"]:
+        for idx, pr in sorted(obs.get("probes", {}).items(), key=lambda x: int(x[0])):
+            mp = model["probes"].get(idx)
+            if mp != pr:
+                o = next((o for o in pr if (mp or {}).get(o) != pr[o]), None)
+                return "attribute access at event %s (%r): object %s is handled by %r in the implementation, %r in the model (set, read, read missing, delete, delete missing)" % (
+                    idx, ie[int(idx)], o, pr.get(o), (mp or {}).get(o))
     outcomes = [t["outcome"] == "ok" for t in obs["tops"]]
     if outcomes != tops_ok:
         return "top-level outcomes differ: implementation %r, expected %r" % ([t["outcome"] for t in obs["tops"]], tops_ok)
